@@ -5,7 +5,7 @@
 # exit status, and removes the scratch copy.
 patch=$(readlink -f "$1"); prop=$2; tier=${3:-quick}; shift; shift; shift
 S=$(mktemp -d /tmp/verif-sens.XXXXXX)
-trap 'rm -rf "$S"' EXIT
+[ -n "$KEEP" ] || trap 'rm -rf "$S"' EXIT; echo "scratch=$S"
 mkdir -p "$S/repo" "$S/build" "$S/out"
 cp -a /repo/src /repo/include "$S/repo/"
 ( cd "$S/repo" && patch -p1 -s --no-backup-if-mismatch < "$patch" ) || { echo "PATCH-FAILED $patch"; exit 4; }
@@ -14,7 +14,7 @@ for f in $flavs; do
   if [ -d /verif/build/$f ]; then
     mkdir -p "$S/build/$f"; cp -a /verif/build/$f/lib /verif/build/$f/v "$S/build/$f/" 2>/dev/null
     # dependency files name /repo paths: point them at the scratch copy
-    find "$S/build/$f" -name '*.d' -exec sed -i "s#/repo/#$S/repo/#g" {} +
+    find "$S/build/$f" -name '*.d' -exec sed -i "s#/verif/build/#$S/build/#g; s# /repo/# $S/repo/#g; s#^/repo/#$S/repo/#g" {} +
   fi
 done
 VERIF_REPO="$S/repo" VERIF_BUILD="$S/build" VERIF_OUT="$S/out" /verif/check.sh "$prop" "$tier" "$@" > "$S/log" 2>&1
